@@ -10,29 +10,64 @@
 (*   ops               <<type, key>> of every insert(1)/delete(-1)/query(0) the sweep made   *)
 (*                     on the status structure (interpreted mode only, else <<>>)            *)
 (* Verdict: the first failing clause of the property over all cells (TLC decides the         *)
-(* candidates and the visibility of every cell); extra = step-level drift information.       *)
+(* candidates and the visibility of every cell); extra = step-level drift information and    *)
+(* the number of cells whose verdict leaned on a borderline comparison.                      *)
+(* One TLC state per case (so that the batch is spread over TLC's workers).                  *)
 EXTENDS ViewLOS, TLC, Json, IOUtils
 
 Cases == ndJsonDeserialize(IOEnv.VERIF_CASES)
 
-Id(c, r, k) == r * c.W + k + 1
+VARIABLES tid, done
+vars == <<tid, done>>
 
-CellV(c, r, k) ==
-  LET o == c.cells[r+1][k+1]
-      cand == Candidates(c.H, c.W, r, k, c.vr, c.vc, c.ew, c.ns)
-      B(n) == c.blocks[Id(c, n[1], n[2])][Id(c, r, k)]
-  IN CellClause(o, r = c.vr /\ k = c.vc, cand, B, Key(r, k, c.vr, c.vc, c.ew, c.ns))
+\* per-case tables, so that each direction vector is computed once: indexed by row-major id 0..H*W-1
+Tab(c) ==
+  LET ids == 0..(c.H * c.W - 1)
+      R(i) == i \div c.W
+      K(i) == i % c.W
+  IN [en  |-> [i \in ids |-> Dir(ENTER, R(i), K(i), c.vr, c.vc)],
+      ex  |-> [i \in ids |-> Dir(EXIT, R(i), K(i), c.vr, c.vc)],
+      ce  |-> [i \in ids |-> Dir(CENTER, R(i), K(i), c.vr, c.vc)],
+      key |-> [i \in ids |-> Key(R(i), K(i), c.vr, c.vc, c.ew, c.ns)],
+      ids |-> ids \ {c.vr * c.W + c.vc}]
 
-RECURSIVE FirstBad(_, _)
-FirstBad(c, i) ==
+\* = ViewLOS!Candidates, evaluated through the tables (Spans and Nearer unfolded)
+Cand(tb, i) ==
+  {n \in tb.ids : /\ n # i /\ tb.key[n] < tb.key[i]
+                  /\ Cross(tb.en[n], tb.ce[i]) > 0 /\ Cross(tb.ce[i], tb.ex[n]) > 0}
+Rival(tb, i) ==
+  \E n \in tb.ids : /\ n # i /\ tb.key[n] = tb.key[i]
+                    /\ Cross(tb.en[n], tb.ce[i]) > 0 /\ Cross(tb.ce[i], tb.ex[n]) > 0
+
+CellV(c, tb, i) ==
+  LET o == c.cells[(i \div c.W) + 1][(i % c.W) + 1]
+      isObs == i = c.vr * c.W + c.vc
+      cand == IF isObs THEN {} ELSE Cand(tb, i)
+      B(n) == c.blocks[n + 1][i + 1]
+  IN CellClause(o, isObs, cand, B, tb.key[i])
+
+RECURSIVE FirstBad(_, _, _)
+FirstBad(c, tb, i) ==
   IF i = c.H * c.W THEN "ok"
-  ELSE LET cl == CellV(c, i \div c.W, i % c.W) IN IF cl # "ok" THEN cl ELSE FirstBad(c, i + 1)
+  ELSE LET cl == CellV(c, tb, i) IN IF cl # "ok" THEN cl ELSE FirstBad(c, tb, i + 1)
 
 \* outside the model: two cells that are active together at equal distance (never within the scope
 \* ViewGeom!NoDupKeys establishes; reported, not judged)
-HasEqualKeyRival(c) ==
-  \E r \in 0..c.H-1, k \in 0..c.W-1 :
-     <<r, k>> # <<c.vr, c.vc>> /\ EqualKeyRival(c.H, c.W, r, k, c.vr, c.vc, c.ew, c.ns)
+\* the tables must agree with the definitions of ViewLOS (checked on every case of up to 30 cells)
+TablesAgree(c, tb) ==
+  c.H * c.W > 30 \/ \A i \in tb.ids :
+     /\ {<<n \div c.W, n % c.W>> : n \in Cand(tb, i)}
+          = Candidates(c.H, c.W, i \div c.W, i % c.W, c.vr, c.vc, c.ew, c.ns)
+     /\ Rival(tb, i) = EqualKeyRival(c.H, c.W, i \div c.W, i % c.W, c.vr, c.vc, c.ew, c.ns)
+V(c, tb) == IF ~TablesAgree(c, tb) THEN "judge_tables_inconsistent"
+            ELSE IF \E i \in tb.ids : Rival(tb, i) THEN "outside_model_equal_keys" ELSE FirstBad(c, tb, 0)
+
+\* vacuity bookkeeping: cells whose verdict leaned on a borderline comparison
+Leaned(c, tb) ==
+  Cardinality({i \in tb.ids :
+     LET cand == Cand(tb, i)
+         B(n) == c.blocks[n + 1][i + 1]
+     IN ~DefinitelyHidden(cand, B) /\ PossiblyHidden(cand, B)})
 
 \* ---- step level (drift only)
 OrderDrift(c) ==
@@ -50,16 +85,11 @@ OrderDrift(c) ==
               okEv == \A i \in 1..Len(o) : c.ops[ni + i] = <<o[i][3], Key(o[i][1], o[i][2], c.vr, c.vc, c.ew, c.ns)>>
           IN IF Len(c.ops) = ni + Len(o) /\ okInit /\ okEv THEN "steps_ok" ELSE "drift_operation_stream"
 
-V(c) == IF HasEqualKeyRival(c) THEN "outside_model_equal_keys" ELSE FirstBad(c, 0)
-
-\* vacuity bookkeeping: cells whose verdict leaned on a borderline comparison (no definite blocker, but a
-\* borderline candidate) / cells with at least one candidate / hidden cells
-Leaned(c) ==
-  Cardinality({rk \in CellsOf(c.H, c.W, c.vr, c.vc) :
-     LET cand == Candidates(c.H, c.W, rk[1], rk[2], c.vr, c.vc, c.ew, c.ns)
-         B(n) == c.blocks[Id(c, n[1], n[2])][Id(c, rk[1], rk[2])]
-     IN ~DefinitelyHidden(cand, B) /\ PossiblyHidden(cand, B)})
-
-ASSUME \A i \in 1..Len(Cases) :
-   PrintT(<<"VERDICT", i, V(Cases[i]), OrderDrift(Cases[i]) \o "|" \o ToString(Leaned(Cases[i]))>>)
+Init == tid \in 1..Len(Cases) /\ done = FALSE
+Judge == /\ ~done
+         /\ LET c == Cases[tid]  tb == Tab(c) IN
+            PrintT(<<"VERDICT", tid, V(c, tb), OrderDrift(c) \o "|" \o ToString(Leaned(c, tb))>>)
+         /\ done' = TRUE /\ UNCHANGED tid
+Next == Judge
+Spec == Init /\ [][Next]_vars
 =============================================================================
